@@ -212,6 +212,10 @@ class CliffordState:
             else clifford.StabilizerStateChForm(self.n, initial_state)
         )
 
+    def _qubits_by_index(self) -> list[cirq.Qid]:
+        # qubit_map gives the index of each qubit; the order of its entries carries no meaning.
+        return sorted(self.qubit_map, key=lambda q: self.qubit_map[q])
+
     def _json_dict_(self) -> dict[str, Any]:
         return {'qubit_map': [(k, v) for k, v in self.qubit_map.items()], 'ch_form': self.ch_form}
 
@@ -246,7 +250,7 @@ class CliffordState:
 
     def apply_unitary(self, op: cirq.Operation) -> None:
         ch_form_args = clifford.StabilizerChFormSimulationState(
-            prng=np.random.RandomState(), qubits=self.qubit_map.keys(), initial_state=self.ch_form
+            prng=np.random.RandomState(), qubits=self._qubits_by_index(), initial_state=self.ch_form
         )
         try:
             act_on(op, ch_form_args)
@@ -275,7 +279,7 @@ class CliffordState:
         ch_form_args = clifford.StabilizerChFormSimulationState(
             prng=prng,
             classical_data=classical_data,
-            qubits=self.qubit_map.keys(),
+            qubits=self._qubits_by_index(),
             initial_state=state.ch_form,
         )
         act_on(op, ch_form_args)
